@@ -17,15 +17,21 @@ Qed.
 
 (* ------------------------------------------------------------------ stamp, register *)
 
-Definition chk_core (d : chk) : N * N * N * N := (ck_sid d, ck_status d, ck_out d, ck_rest d).
+(* what of a check definition is the agent's: everything except ServiceName / ServiceTags
+   (copied by the catalog from its service row) and an empty status (defaulted to critical) *)
+Definition chk_core (d : chk) : N * N * N * N := (ck_sid d, status_default (ck_status d), ck_out d, ck_rest d).
+
+Lemma status_default_idem s : status_default (status_default s) = status_default s.
+Proof. unfold status_default. destruct (N.eqb_spec s 0) as [->|E]; [reflexivity|]. destruct (N.eqb_spec s 0); [contradiction|reflexivity]. Qed.
 
 Lemma stamp_Some svcs d r :
   stamp svcs d = Some r ->
   chk_core r = chk_core d /\ (ck_sid d = 0%N \/ is_Some (svcs !! ck_sid d)).
 Proof.
-  unfold stamp. destruct (N.eqb_spec (ck_sid d) 0) as [E|E].
-  - intros [= <-]. auto.
-  - destruct (svcs !! ck_sid d) eqn:L; [|discriminate]. intros [= <-]. split; [reflexivity|eauto].
+  unfold stamp, chk_core. destruct (N.eqb_spec (ck_sid d) 0) as [E|E].
+  - intros [= <-]. cbn. rewrite status_default_idem. auto.
+  - destruct (svcs !! ck_sid d) eqn:L; [|discriminate]. intros [= <-]. cbn. rewrite status_default_idem.
+    split; [reflexivity|eauto].
 Qed.
 
 Lemma stamp_is_Some svcs d :
